@@ -139,6 +139,8 @@ THEOREMS = [
     "Verif.C18.datetime_roundtrip",
     "Verif.C18.datetime_negative_refused",
     "Verif.C18.decode_sound",
+    "Verif.C18.decode_complete",
+    "Verif.C18.datetime_roundtrip_total",
     "Verif.C18.legacy_frame_ranges",
     "Verif.C18.export_selection_frames",
     "Verif.C18.export_selection_index",
@@ -148,6 +150,33 @@ THEOREMS = [
     "Verif.C18.reexport_after_export",
     "Verif.C18.export_legacy_tags",
     "Verif.C18.visible_selection",
+    "Verif.C18.exposure_roundtrip",
+    "Verif.C18.exposure_bound_needed",
+    "Verif.C18.exposure_ms_close",
+    "Verif.C18.exposure_times_roundtrip",
+    "Verif.C18.reexport_fixed_point_float",
+    "Verif.C18.reexport_after_export_float",
+    "Verif.C18.tuple_index_is_crop_then_frames",
+    "Verif.C18.export_selection_tuple",
+    "Verif.C18.export_program_selection",
+    "Verif.C18.program_establishes_hypotheses",
+    "Verif.C18.program_reexport",
+    "Verif.C18.program_visible",
+    "Verif.C18.legacy_program_tags",
+    "Verif.C18.kymo_frame_range",
+    "Verif.C18.kymo_frame_range_ordered",
+    "Verif.C18.export_tiff_no_images",
+    "Verif.C18.export_tiff_all_or_nothing",
+    "Verif.C18.export_tiff_page_count",
+    "Verif.C18.export_tiff_roundtrip",
+    "Verif.C18.export_tiff_pixels",
+    "Verif.C18.stack_export_is_mixin_export",
+    "Verif.C18.software_tag_fixed_point",
+    "Verif.C18.software_tag_keeps_original",
+    "Verif.C18.legacy_detection_spec",
+    "Verif.C18.exported_file_not_legacy",
+    "Verif.C18.exported_alignment_is_applied",
+    "Verif.C18.for_export_fixed_point",
 ]
 RULE = (
     "corpus + exhaustive small scope + seeded random + malformed stream. stack: real TIFF stacks written with tifffile "
@@ -651,7 +680,7 @@ def reference_confocal(case):
     return np.array(frames), out
 
 
-def impl_confocal(case):
+def _impl_confocal(case):
     from lumicks.pylake import ImageStack
 
     obs = case["_obs"] = {}
@@ -683,10 +712,12 @@ def impl_confocal(case):
                     obs["lines"] = int(img.shape[1]) if img.ndim == 3 else None
                     try:
                         d = obj.line_timestamp_ranges(include_dead_time=True)
+                        obs["dead_lines"] = [(int(a), int(b)) for a, b in d]
                         obs["dead"] = [(min(int(a) for a, _ in d), max(int(b) for _, b in d))]
                     except Exception as e:
                         obs["dead_error"] = repr(e)
                     e_ = obj.line_timestamp_ranges(include_dead_time=False)
+                    obs["exp_lines"] = [(int(a), int(b)) for a, b in e_]
                     obs["exp"] = [(min(int(a) for a, _ in e_), max(int(b) for _, b in e_))]
                 obs["pixelsize_um"] = list(obj.pixelsize_um)
                 obs["fast_pixels"] = int(obj.pixels_per_line)
@@ -744,7 +775,60 @@ def impl_confocal(case):
         rm(p1, p2, p3, p0, p0b)
 
 
+def written_ms(raw):
+    return [json.loads(pg["desc"]).get("Exposure time (ms)") for pg in raw]
+
+
+def impl_confocal(case):
+    """answers 0-1: the cast of all pixels and the DateTime of the last page read back (see _impl_confocal); 2: the DateTime tag
+    of the FIRST page as written; 3: the doubles behind "Exposure time (ms)" of all pages as written (raw re-read)"""
+    r = _impl_confocal(case)
+    obs = case.get("_obs", {})
+    if "raw1" not in obs:
+        return r + ["not-written"] * (5 - len(r))
+    raw = obs["raw1"]
+    dt = raw[0]["dt"]
+    a2 = dt if case["kind"] == "kymo" else enc_list([ord(ch) for ch in dt])
+    ms = written_ms(raw)
+    a3 = enc_ratlist([Fraction(float(x)) for x in ms]) if all(isinstance(x, float) for x in ms) else f"no-exposure-key:{ms!r}"
+    return r + [a2, a3, glue_answer(raw)]
+
+
+def enc_ranges2(rr):
+    return f"{enc_list([a for a, _ in rr])} {enc_list([b for _, b in rr])}"
+
+
 def ops_confocal(case):
+    return _ops_confocal(case) + _ops_confocal_tags(case) + [_op_confocal_whole(case)]
+
+
+def _op_confocal_whole(case):
+    """op 4: the whole export_tiff on what the confocal hooks return - the image of the (derived) object cut into frames
+    (ConfocalImage._tiff_frames: one frame for a kymograph / single-frame scan), its frame ranges with and without dead time"""
+    obs = case.get("_obs", {})
+    if "image" not in obs or not obs.get("dead") or not obs.get("exp"):
+        return "c18.exporttiff none F [] [] [] [] []"
+    img = np.asarray(obs["image"])
+    frames = img if (case["kind"] == "scan" and img.ndim >= 4) else img[None]
+    fr = "[" + ";".join(",".join(v if isinstance(v, str) else f"{v.numerator}/{v.denominator}" for v in arr_rats(f)) for f in frames) + "]"
+    return f"c18.exporttiff {case['dtype']} {enc_bool(case['clip'])} {fr} {enc_ranges2(obs['dead'])} {enc_ranges2(obs['exp'])}"
+
+
+def _ops_confocal_tags(case):
+    """ops 2-3: what the provider hooks make of the object's own line / frame ranges (Kymo._tiff_timestamp_ranges: min / max over
+    all line starts and stops; Scan: the frame ranges) and the float64 millisecond key of every page"""
+    obs = case.get("_obs", {})
+    if case["kind"] == "kymo":
+        if "dead_lines" in obs and "exp_lines" in obs:
+            return [f"c18.kymorange {enc_ranges2(obs['dead_lines'])}", f"c18.kymoexp {enc_ranges2(obs['exp_lines'])}"]
+        return ["c18.kymorange [] []", "c18.kymoexp [] []"]
+    if obs.get("dead") and obs.get("exp"):
+        a, b = obs["dead"][0]
+        return [f"c18.encode {a} {b}", f"c18.expms {enc_list([y - x for x, y in obs['exp']])}"]
+    return ["c18.encode -1 -1", "c18.expms []"]
+
+
+def _ops_confocal(case):
     obs = case.get("_obs", {})
     if "image" in obs:
         vals = enc_ratlist(arr_rats(obs["image"]))
@@ -859,7 +943,10 @@ def check_written(case, obs, raw1, want, ref_times):
         if case["kind"] == "kymo":
             if d.get("Start pixel timestamp (ns)") != exp[0][0] or d.get("Stop pixel timestamp (ns)") != exp[0][1]:
                 return "metadata: start/stop pixel timestamps differ from the line ranges"
-        if not case["derive"]:
+        # the pixel dwell time is a property of the acquisition: frame slices and pixel crops of a scan do not change it
+        # (a scan left with a single pixel along the fast axis has none: finding F18a, export refused before this point)
+        dwell_kept = case["kind"] == "scan" and all(o[0] in ("frames", "frame", "cropxy", "tuple") for o in case["derive"]) and obs.get("fast_pixels", 0) >= 2
+        if not case["derive"] or dwell_kept:
             k = lay["k"]
             if not math.isclose(d.get("Pixel time (s)") or 0.0, k * case["dt"] * 1e-9, rel_tol=1e-9):
                 return f"metadata: pixel time {d.get('Pixel time (s)')} != {k * case['dt'] * 1e-9} (page {i})"
@@ -1197,6 +1284,451 @@ def oracle_mixin(case, ia):
     return None
 
 
+# ------------------------------------------------------------------ exposure kind ("Exposure time (ms)" float key)
+
+
+def f64_of(tok):
+    """a case's double: a float.hex() string"""
+    return float.fromhex(tok)
+
+
+def exposures_reopened(path):
+    """stop - start of frame_timestamp_ranges(include_dead_time=False) of ImageStack(file): TiffFrame.exposure_timestamp_range"""
+    from lumicks.pylake import ImageStack
+
+    st = ImageStack(path)
+    try:
+        return [int(b) - int(a) for a, b in st.frame_timestamp_ranges(include_dead_time=False)]
+    finally:
+        st.close()
+
+
+def impl_exposure(case):
+    """[0] the doubles behind "Exposure time (ms)" that ImageStack.export_tiff WRITES for pages whose exposure is e_i ns
+    (a camera TIFF without the key: the exposure is the DateTime span start:start+e_i), read raw with json;
+    [1] the exposures the reader reconstructs from that written file (exposure_timestamp_range through ImageStack);
+    [2] the exposures the reader reconstructs from a camera TIFF whose key holds the case's own doubles `ms`."""
+    from lumicks.pylake import ImageStack
+
+    obs = case["_obs"] = {}
+    a0, es, ms = case["start"], case["e"], [f64_of(t) for t in case["ms"]]
+    out = []
+    p1, p2, p3 = fresh("ex1"), fresh("ex2"), fresh("ex3")
+    try:
+        with warnings.catch_warnings():
+            warnings.simplefilter("ignore")
+            if es:
+                try:
+                    dts = [f"{a0 + 10 * i}:{a0 + 10 * i + e}" for i, e in enumerate(es)]
+                    write_pages(p1, dts, "Bluelake verif", [{"Camera": "verif"}] * len(es))
+                    st = ImageStack(p1)
+                    try:
+                        st.export_tiff(p2)
+                    finally:
+                        st.close()
+                    raw = read_raw(p2)
+                    obs["written"] = [json.loads(pg["desc"]).get("Exposure time (ms)") for pg in raw]
+                    obs["written_dt"] = [pg["dt"] for pg in raw]
+                    out.append(enc_ratlist([Fraction(float(x)) for x in obs["written"]]))
+                    try:
+                        obs["reread"] = exposures_reopened(p2)
+                        out.append(enc_list(obs["reread"]))
+                    except Exception as e:
+                        obs["reread_error"] = repr(e)
+                        out.append(errname(e))
+                except Exception as e:
+                    obs["write_error"] = repr(e)
+                    out += [errname(e), "not-written"]
+            else:
+                out += ["?", "?"]
+            if ms:
+                try:
+                    dts = [f"{a0 + 10 * i}:{a0 + 10 * i + 5}" for i in range(len(ms))]
+                    write_pages(p3, dts, "Bluelake verif", [{"Camera": "verif", "Exposure time (ms)": x} for x in ms])
+                    obs["read"] = exposures_reopened(p3)
+                    out.append(enc_list(obs["read"]))
+                except Exception as e:
+                    obs["read_error"] = repr(e)
+                    out.append(errname(e))
+            else:
+                out.append("?")
+        return out
+    finally:
+        rm(p1, p2, p3)
+
+
+def ops_exposure(case):
+    es = enc_list(case["e"])
+    return [f"c18.expms {es}", f"c18.exprt {es}", f"c18.expns {enc_ratlist([Fraction(f64_of(t)) for t in case['ms']])}"]
+
+
+EXPOSURE_EXACT = 10**15  # the bound of theorem exposure_roundtrip (ns)
+
+
+def oracle_exposure(case, ia):
+    obs = case.get("_obs", {})
+    es, ms = case["e"], [f64_of(t) for t in case["ms"]]
+    if es:
+        if "written" not in obs:
+            return f"export-refused: a readable camera TIFF could not be opened / exported: {obs.get('write_error')}"
+        w = obs["written"]
+        if len(w) != len(es):
+            return f"selection: {len(w)} pages written for {len(es)} pages"
+        for i, (e, x) in enumerate(zip(es, w)):
+            if x is None:
+                return f"exposure: page {i} carries no exposure key"
+            if abs(Fraction(float(x)) * 10**6 - e) > abs(e) * Fraction(1, 2**50):
+                return f"exposure: page {i} carries {x!r} ms for an exposure of {e} ns"
+            if obs["written_dt"][i] != f"{case['start'] + 10 * i}:{case['start'] + 10 * i + e}":
+                return f"timestamps: page {i} carries {obs['written_dt'][i]!r}"
+        if "reread" not in obs:
+            return f"exposure: the exported file cannot be read back: {obs.get('reread_error')}"
+        for i, (e, g) in enumerate(zip(es, obs["reread"])):
+            if abs(e) <= EXPOSURE_EXACT and g != e:
+                return f"exposure: page {i} exported with an exposure of {e} ns is read back with {g} ns"
+    if ms:
+        if "read" not in obs:
+            return f"exposure: a camera TIFF with exposure keys {ms} cannot be read: {obs.get('read_error')}"
+        for i, (x, g) in enumerate(zip(ms, obs["read"])):
+            exact = Fraction(x) * 10**6
+            if abs(g - exact) > Fraction(1, 2) + abs(exact) * Fraction(1, 2**52):
+                return f"exposure: key {x!r} ms is read as {g} ns"
+    return None
+
+
+def exposure_case(es, ms=(), start=None):
+    return {"kind": "exposure", "start": bt.T0 if start is None else start, "e": [int(e) for e in es], "ms": [float(x).hex() for x in ms]}
+
+
+# ------------------------------------------------------------------ glue kind (export_tiff as a whole, hooks of any lengths)
+
+
+def glue_case(frames, dtype, clip, dead, exp):
+    return {"kind": "glue", "frames": [[str(Fraction(v)) for v in fr] for fr in frames], "dtype": dtype, "clip": clip,
+            "dead": [list(x) for x in dead], "exp": [list(x) for x in exp]}
+
+
+def glue_width(case):
+    return max([len(fr) for fr in case["frames"]] + [1])
+
+
+def impl_glue(case):
+    """TiffExport.export_tiff fed by a provider whose hooks return n frames (1 x k grey), m ranges with dead time and l
+    exposure ranges (n, m, l independent; dtype None / u8 / u16 / f32): `ok [codes|ms|pixels;...]` of the raw re-read, or
+    the error name; "?" while the mixin / its hooks are not reachable"""
+    obs = case["_obs"] = {}
+    TiffExport = export_mixin()
+    if TiffExport is None:
+        return ["?"]
+    k = glue_width(case)
+    arr = np.array([[float(Fraction(v)) for v in fr] for fr in case["frames"]], dtype=np.float64).reshape((len(case["frames"]), 1, k))
+    dead, exp = [tuple(x) for x in case["dead"]], [tuple(x) for x in case["exp"]]
+
+    class Provider(TiffExport):
+        def _tiff_frames(self, iterator=False):
+            return iter(arr) if iterator else arr
+
+        def _tiff_image_metadata(self):
+            return {"Camera": "verif"}
+
+        def _tiff_timestamp_ranges(self, include_dead_time):
+            return dead if include_dead_time else exp
+
+        def _tiff_writer_kwargs(self):
+            return {"software": "verif", "photometric": "minisblack"}
+
+    import logging
+
+    logging.getLogger("tifffile").setLevel(logging.CRITICAL)  # "contains no pages" of a page-less file is expected here
+    p = fresh("g")
+    try:
+        with warnings.catch_warnings():
+            warnings.simplefilter("ignore")
+            try:
+                Provider().export_tiff(p, dtype=DT_NP[case["dtype"]] if case["dtype"] != "none" else None, clip=case["clip"])
+            except Exception as e:
+                obs["error"] = repr(e)
+                return [errname(e)]
+            try:
+                raw = read_raw(p)
+            except Exception as e:  # a TIFF without a single page (zip() of an empty iterator): tifffile cannot open it
+                if os.path.getsize(p) <= 16:
+                    raw = []
+                else:
+                    obs["error"] = "re-read: " + repr(e)
+                    return [errname(e)]
+        obs["raw"] = raw
+        return [glue_answer(raw)]
+    finally:
+        rm(p)
+
+
+def glue_answer(raw):
+    pages = []
+    for pg in raw:
+        ms = json.loads(pg["desc"]).get("Exposure time (ms)")
+        pages.append("|".join([",".join(str(ord(ch)) for ch in pg["dt"]), str(Fraction(float(ms))) if isinstance(ms, float) else "nokey",
+                               ",".join(v if isinstance(v, str) else f"{v.numerator}/{v.denominator}" for v in arr_rats(pg["img"]))]))
+    return "ok [" + ";".join(pages) + "]"
+
+
+def ops_glue(case):
+    fr = "[" + ";".join(",".join(f"{Fraction(v).numerator}/{Fraction(v).denominator}" for v in f) for f in case["frames"]) + "]"
+    return [f"c18.exporttiff {case['dtype']} {enc_bool(case['clip'])} {fr} {enc_ranges2(case['dead'])} {enc_ranges2(case['exp'])}"]
+
+
+def glue_pages(ans):
+    inner = ans[4:-1]
+    out = []
+    for pg in inner.split(";") if inner else []:
+        dt, ms, img = pg.split("|")
+        out.append((dt, Fraction(ms) if ms != "nokey" else None, img))
+    return out
+
+
+def agree_glue(ia, ma):
+    if not (ia.startswith("ok [") and ma.startswith("ok [")):
+        return ia == ma
+    a, b = glue_pages(ia), glue_pages(ma)
+    return len(a) == len(b) and all(
+        x[0] == y[0] and x[2] == y[2] and x[1] is not None and abs(x[1] - y[1]) <= abs(y[1]) * Fraction(1, 10**12) for x, y in zip(a, b))
+
+
+def oracle_glue(case, ia):
+    if ia[0] == "?":
+        return None
+    obs = case.get("_obs", {})
+    frames = [[Fraction(v) for v in fr] for fr in case["frames"]]
+    dead, exp = case["dead"], case["exp"]
+    if not dead:
+        return None if ia[0] == "RuntimeError" else f"no-images: no timestamp ranges, but export gave {ia[0][:80]}"
+    if not (len(frames) == len(dead) == len(exp)) or not frames or not frames[0]:
+        return None  # hooks that disagree about the number of frames / empty images: the property says nothing (model agreement only)
+    flat = [v for fr in frames for v in fr]
+    want = flat if case["dtype"] == "none" else cast_reference(flat, case["dtype"], case["clip"])
+    if want == "RuntimeError":
+        return None if ia[0] == "RuntimeError" else f"cast-refusal: a value does not fit {case['dtype']} (clip=False) but export gave {ia[0][:80]}"
+    if "raw" not in obs:
+        return f"export-refused: all values fit (or clip=True / no dtype) but export raised {ia[0]}: {obs.get('error')}"
+    raw = obs["raw"]
+    if len(raw) != len(frames):
+        return f"selection: {len(raw)} pages written for {len(frames)} frames"
+    k = len(frames[0])
+    for i, pg in enumerate(raw):
+        if arr_rats(pg["img"]) != want[i * k : (i + 1) * k]:
+            return f"pixels: page {i} holds {arr_rats(pg['img'])}, expected {want[i * k:(i + 1) * k]} for {case['dtype']} clip={case['clip']}"
+        if pg["dt"] != f"{dead[i][0]}:{dead[i][1]}":
+            return f"timestamps: page {i} carries {pg['dt']!r} for range {dead[i][0]}:{dead[i][1]}"
+        e = exp[i][1] - exp[i][0]
+        if abs(e) <= EXPOSURE_EXACT and exposure_ns(pg) != e:
+            return f"exposure: page {i} carries {exposure_ns(pg)} ns for {e} ns"
+    return None
+
+
+# ------------------------------------------------------------------ software kind (Software tag, legacy detection)
+
+
+def pylake_version():
+    import lumicks.pylake as lk
+
+    return str(lk.__version__)
+
+
+def raw_software(path):
+    import tifffile
+
+    with tifffile.TiffFile(path) as t:
+        tg = t.pages[0].tags
+        return tg["Software"].value if "Software" in tg else ""
+
+
+def impl_software(case):
+    """a two-page camera TIFF (DateTime T:T+8, T+10:T+18) whose Software tag is the case's string, with or without the
+    exposure key: [0] the Software tag ImageStack.export_tiff writes, [1] the tag after exporting that export again,
+    [2] whether pylake reads the file as a legacy export (frame ranges reconstructed start-to-next-start: T:T+10, T+10:T+20).
+    "?" when tifffile does not hand the Software string back unchanged."""
+    from lumicks.pylake import ImageStack
+
+    obs = case["_obs"] = {}
+    sw, key = case["sw"], case["key"]
+    T = bt.T0
+    p1, p2, p3 = fresh("sw1"), fresh("sw2"), fresh("sw3")
+    try:
+        with warnings.catch_warnings():
+            warnings.simplefilter("ignore")
+            d = {"Camera": "verif"}
+            if key:
+                d["Exposure time (ms)"] = 5e-6
+            try:
+                write_pages(p1, [f"{T}:{T + 8}", f"{T + 10}:{T + 18}"], sw, [d, d])
+                if raw_software(p1) != sw:
+                    return ["?", "?", "?"]
+            except Exception:
+                return ["?", "?", "?"]
+            out = []
+            try:
+                st = ImageStack(p1)
+                try:
+                    ranges = [(int(a) - T, int(b) - T) for a, b in st.frame_timestamp_ranges(include_dead_time=True)]
+                    st.export_tiff(p2)
+                finally:
+                    st.close()
+                obs["sw1"] = raw_software(p2)
+                out.append(enc_list([ord(ch) for ch in obs["sw1"]]))
+                st = ImageStack(p2)
+                try:
+                    obs["ranges2"] = [(int(a) - T, int(b) - T) for a, b in st.frame_timestamp_ranges(include_dead_time=True)]
+                    st.export_tiff(p3)
+                finally:
+                    st.close()
+                obs["sw2"] = raw_software(p3)
+                out.append(enc_list([ord(ch) for ch in obs["sw2"]]))
+                obs["ranges"] = ranges
+                out.append("T" if ranges == [(0, 10), (10, 20)] else "F" if ranges == [(0, 8), (10, 18)] else f"ranges:{ranges}")
+                return out
+            except Exception as e:
+                obs["error"] = repr(e)
+                return (out + [errname(e)] * 3)[:3]
+    finally:
+        rm(p1, p2, p3)
+
+
+def ops_software(case):
+    sw = enc_list([ord(ch) for ch in case["sw"]])
+    ver = enc_list([ord(ch) for ch in pylake_version()])
+    return [f"c18.software {sw} {ver} F", f"c18.software {sw} {ver} T", f"c18.islegacy {sw} {enc_bool(case['key'])}"]
+
+
+def oracle_software(case, ia):
+    if ia[0] == "?":
+        return None
+    obs = case.get("_obs", {})
+    if "sw2" not in obs:
+        return f"export-refused: a readable camera TIFF could not be opened / exported twice: {obs.get('error')}"
+    if obs["sw1"] != obs["sw2"]:
+        return f"re-export: Software tag {obs['sw1']!r} becomes {obs['sw2']!r} when the exported file is exported again"
+    if not obs["sw1"].startswith(case["sw"]):
+        return f"metadata: Software tag {case['sw']!r} was replaced by {obs['sw1']!r}"
+    want = obs["ranges"]  # what the stack reported is what its export must say on re-reading (exported files are never legacy)
+    if obs["ranges2"] != want:
+        return f"timestamps: frame ranges {want} of the stack are read back from its export as {obs['ranges2']}"
+    return None
+
+
+# ------------------------------------------------------------------ align kind (alignment status, for_export keys, no second warp)
+
+ALIGN_VARIANTS = ["ready3", "ready01", "only12", "none", "applied3", "appliedX", "ready+applied", "pylakekey", "shift", "grey"]
+
+
+def align_description(variant):
+    """how the ImageDescription of an RGB stack with (identity) alignment matrices is changed for the variant"""
+    def mut(d):
+        d = dict(d)
+        ck = [f"Channel {j} alignment" for j in range(3)]
+        if variant == "ready01":
+            d.pop(ck[2])
+        elif variant == "only12":
+            d.pop(ck[0])
+        elif variant == "none":
+            for k in ck:
+                d.pop(k)
+        elif variant == "applied3":
+            for j, k in enumerate(ck):
+                d[f"Applied channel {j} alignment"] = d.pop(k)
+        elif variant == "appliedX":
+            for k in ck:
+                d.pop(k)
+            d["Applied foo channel bar"] = [1.0, 0.0, 0.0, 0.0, 1.0, 0.0]
+        elif variant == "ready+applied":
+            d["Applied channel 1 alignment"] = d.pop(ck[1])
+        elif variant == "pylakekey":
+            d["Pylake"] = {"x": 1}
+        elif variant == "shift":
+            d[ck[0]] = [1.0, 0.0, 1.0, 0.0, 1.0, 0.0]  # the red channel is shifted by one pixel: a second warp would show
+        return d
+    return mut
+
+
+def impl_align(case):
+    """an RGB (or grey) camera stack whose description carries the variant's alignment keys, opened with align=requested:
+    [0] the JSON keys of the exported description (sorted), [1] the keys after opening that export the same way and exporting
+    again (sorted).  The oracle also compares the pixels of the two exports (no second warp)."""
+    from lumicks.pylake import ImageStack
+
+    obs = case["_obs"] = {}
+    grey = case["variant"] == "grey"
+    spec = bt.make_spec(files=(2,), h=4, w=5, colour="grey" if grey else "rgb", align=not grey)
+    d = tempfile.mkdtemp(prefix="al_", dir=tmpdir())
+    orig = bt.description
+    try:
+        with warnings.catch_warnings():
+            warnings.simplefilter("ignore")
+            bt.description = lambda s_, p_: align_description(case["variant"])(orig(s_, p_))
+            try:
+                paths = bt.write_files(spec, d)
+            finally:
+                bt.description = orig
+            obs["keys0"] = list(align_description(case["variant"])(orig(spec, 0)).keys())
+            p2, p3 = os.path.join(d, "e1.tiff"), os.path.join(d, "e2.tiff")
+            try:
+                st = ImageStack(*paths, align=case["requested"])
+                try:
+                    st.export_tiff(p2)
+                finally:
+                    st.close()
+                raw2 = read_raw(p2)
+                st = ImageStack(p2, align=case["requested"])
+                try:
+                    st.export_tiff(p3)
+                finally:
+                    st.close()
+                raw3 = read_raw(p3)
+            except Exception as e:
+                obs["error"] = repr(e)
+                return [errname(e), errname(e)]
+            obs["raw2"], obs["raw3"] = raw2, raw3
+            k2, k3 = list(json.loads(raw2[0]["desc"]).keys()), list(json.loads(raw3[0]["desc"]).keys())
+            obs["k2"], obs["k3"] = k2, k3
+            return [enc_keys(k2), enc_keys(k3)]
+    finally:
+        shutil.rmtree(d, ignore_errors=True)
+
+
+def enc_keys(keys):
+    return "[" + ";".join(",".join(str(ord(ch)) for ch in k) for k in sorted(set(keys))) + "]"
+
+
+def ops_align(case):
+    obs = case.get("_obs", {})
+    keys = obs.get("keys0", [])
+    rgb = enc_bool(case["variant"] != "grey")
+    raw = "[" + ";".join(",".join(str(ord(ch)) for ch in k) for k in keys) + "]"
+    return [f"c18.forexport {rgb} {enc_bool(case['requested'])} F {raw}", f"c18.forexport {rgb} {enc_bool(case['requested'])} T {raw}"]
+
+
+def agree_align(ia, ma):
+    def keyset(a):
+        inner = a[1:-1]
+        return sorted(set(inner.split(";"))) if inner else []
+    if not (ia.startswith("[") and ma.startswith("[")):
+        return ia == ma
+    return keyset(ia) == keyset(ma)  # a dict: the order of the keys means nothing
+
+
+def oracle_align(case, ia):
+    obs = case.get("_obs", {})
+    if "raw3" not in obs:
+        return f"export-refused: a readable camera TIFF could not be opened / exported twice: {obs.get('error')}"
+    if sorted(obs["k2"]) != sorted(obs["k3"]):
+        return f"re-export: description keys {sorted(set(obs['k2']) ^ set(obs['k3']))} differ between the export and the export of the export"
+    for i, (p, q) in enumerate(zip(obs["raw2"], obs["raw3"])):
+        if p["img"].shape != q["img"].shape or not np.array_equal(p["img"], q["img"]):
+            return f"re-export: pixels of page {i} change when the exported file is exported again (aligned twice?)"
+        if p["dt"] != q["dt"]:
+            return f"re-export: DateTime of page {i} changes from {p['dt']!r} to {q['dt']!r}"
+    return None
+
+
 # ------------------------------------------------------------------ datetime / legacy kinds
 
 
@@ -1343,6 +1875,14 @@ def impl(case):
         return impl_datetime(case)
     if k == "legacy":
         return impl_legacy(case)
+    if k == "exposure":
+        return impl_exposure(case)
+    if k == "glue":
+        return impl_glue(case)
+    if k == "software":
+        return impl_software(case)
+    if k == "align":
+        return impl_align(case)
     raise ValueError(k)
 
 
@@ -1358,6 +1898,14 @@ def ops(case):
         return [f"c18.decode {enc_list([ord(c) for c in case['s']])}"] * 2
     if k == "legacy":  # the direct call of the helper, and the same ranges as the tags of a legacy file read through ImageStack
         return [f"c18.legacy {enc_list([a for a, _ in case['ranges']])} {enc_list([b for _, b in case['ranges']])}"] * 2
+    if k == "exposure":
+        return ops_exposure(case)
+    if k == "glue":
+        return ops_glue(case)
+    if k == "software":
+        return ops_software(case)
+    if k == "align":
+        return ops_align(case)
     raise ValueError(k)
 
 
@@ -1368,6 +1916,21 @@ def agree(case, i, ia, ma):
         return True  # the derivation itself was refused (C06's business): nothing was exported, nothing to compare
     if ia == "not-written" and i > 0:
         return True  # the export was refused (op 0 compares that refusal with the model): there is no tag to read back
+    if case["kind"] == "exposure" and i == 1 and ia.startswith("[") and ma.startswith("["):
+        # the ns read back: exact inside the bound of exposure_roundtrip; beyond it the last bit of the millisecond double decides
+        # (x / 1e6 and x * 1e-6 are both right), so only closeness is demanded there
+        a, b = [int(t) for t in ia[1:-1].split(",") if t], [int(t) for t in ma[1:-1].split(",") if t]
+        return len(a) == len(b) == len(case["e"]) and all(
+            (x == y) if abs(e) <= EXPOSURE_EXACT else abs(x - y) <= max(2, abs(e) >> 50) for e, x, y in zip(case["e"], a, b))
+    if case["kind"] == "align":
+        return agree_align(ia, ma)
+    if case["kind"] == "glue" or case["kind"] in ("kymo", "scan") and i == 4:
+        return agree_glue(ia, ma)
+    if (case["kind"] == "exposure" and i == 0 or case["kind"] in ("kymo", "scan") and i == 3) and ia.startswith("[") and ma.startswith("["):
+        # the millisecond doubles: number policy (a double of the implementation within rel 1e-12 of the model's; `x / 1e6`
+        # instead of `x * 1e-6` is the same exposure) - the integers read back (ops 1, 2) are compared exactly
+        a, b = [Fraction(t) for t in ia[1:-1].split(",") if t], [Fraction(t) for t in ma[1:-1].split(",") if t]
+        return len(a) == len(b) and all(abs(x - y) <= abs(y) * Fraction(1, 10**12) for x, y in zip(a, b))
     return ia == ma
 
 
@@ -1383,6 +1946,14 @@ def oracle(case, ia):
         return oracle_datetime(case, ia)
     if k == "legacy":
         return oracle_legacy(case, ia)
+    if k == "exposure":
+        return oracle_exposure(case, ia)
+    if k == "glue":
+        return oracle_glue(case, ia)
+    if k == "software":
+        return oracle_software(case, ia)
+    if k == "align":
+        return oracle_align(case, ia)
     raise ValueError(k)
 
 
@@ -1754,6 +2325,54 @@ def cases(tier, rng):
             rr = [[10 + 10 * i + (i * i if variant == 1 else 0), 18 + 10 * i + (variant == 2) * 7] for i in range(n_)]
             yield {"stream": "small-scope", "kind": "legacy", "ranges": rr}
 
+    # ---------------- exposure key: ns -> float64 ms -> ns
+    exp_bound = sorted(set(
+        list(range(0, 21)) + [10**k + d for k in range(2, 16) for d in (-1, 0, 1)] + [2**k + d for k in (10, 24, 31, 32, 40, 49, 50) for d in (-1, 0, 1)]
+        + [40_000_000, 12_800, 999_999, 1_000_001, 123_456_789, 86_400 * 10**9, EXPOSURE_EXACT - 2, EXPOSURE_EXACT - 1, EXPOSURE_EXACT]))
+    exp_bound = [e for e in exp_bound if e <= EXPOSURE_EXACT]
+    for i in range(0, len(exp_bound), 4):  # every boundary exposure, 1-4 pages per file (1 page: the squeeze()/atleast_1d path)
+        yield dict(exposure_case(exp_bound[i : i + 4], ms=[(k + 0.5) / 1e6 for k in range(i, i + 4)]), stream="small-scope")
+    for e in (0, 1, 7, 12_800, 10**15):
+        yield dict(exposure_case([e]), stream="small-scope")
+    yield dict(exposure_case([-1, -5, -40_000_000, -(10**15)], ms=[-0.5e-6, -1.5e-6, -2.5e-6, -1.0]), stream="small-scope")
+    # beyond the bound of the theorem: model and code must still agree (the oracle asserts nothing on the read-back there)
+    yield dict(exposure_case([2252445244112521, 10**15 + 1, 2**53 - 1, 2**53 + 1], ms=[2**-20, 2**-30, 0.1, 1 / 3]), stream="small-scope")
+    yield dict(exposure_case([2**62, 2**62 + 2**61 - 12345, 2**60 + 1], ms=[1e9, 123456.789, 5e-7], start=0), stream="small-scope")
+    yield dict(exposure_case([], ms=[0.0, 5e-7, 1.5e-6, 2.5e-6, 40.0, 0.0128, 1e-7, 4.9999999e-7]), stream="small-scope")
+
+    # ---------------- glue: export_tiff as a whole; hooks returning n frames, m ranges, l exposure ranges
+    # (the hooks of one object agree about the number of frames: n frames, n ranges, n exposure ranges - what export_tiff does
+    # with hooks that disagree is modelled and proved (export_tiff_page_count) but not tied: an equivalent refactoring may index
+    # instead of zip, or raise a differently named error for an empty exposure list)
+    for nf in range(0, 4):
+        nd = ne = nf
+        frames = [[10 * j + 1, 10 * j + 2] for j in range(nf)]
+        dead = [[bt.T0 + 100 * j, bt.T0 + 100 * j + 100] for j in range(nd)]
+        exp = [[bt.T0 + 100 * j, bt.T0 + 100 * j + 40 + j] for j in range(ne)]
+        for dtype in ("none", "u8"):
+            yield dict(glue_case(frames, dtype, False, dead, exp), stream="small-scope")
+    for dtype, bad in (("u8", ["256", "-1", "511/2"]), ("u16", ["65536", "-1/4"]), ("f32", [str(2**128), "1/3"]), ("none", ["-7/2", "70000"])):
+        for b in bad:
+            for pos in range(6):  # the offending / fractional value in every position of every frame
+                flat = ["1", "2", "3", "4", "5", "6"]
+                flat[pos] = b
+                frames = [flat[0:2], flat[2:4], flat[4:6]]
+                dead = [[1000 * j, 1000 * j + 1000] for j in range(3)]
+                exp = [[1000 * j, 1000 * j + 700 + j] for j in range(3)]
+                for clip in (False, True):
+                    yield dict(glue_case(frames, dtype, clip, dead, exp), stream="small-scope")
+
+    # ---------------- Software tag / legacy detection
+    for sw in ["", "Bluelake", "Bluelake 2.5.1", "Pylake v1.3.0", "Pylake", "pylake", "PYLAKE 1.0", "PyLaKe", "Bluelake 2.1, Pylake v1.2.1", "Pylak", "Pylak e",
+               "xPylakex", "ylake", "Py lake", "P", "Bluelake, pylake", "pyPylake", "PylakPylake", "Pylake,", "tifffile.py", "B, Pylake v9, Pylake v10"]:
+        for key in (False, True):
+            yield {"stream": "small-scope", "kind": "software", "sw": sw, "key": key}
+
+    # ---------------- alignment status / for_export keys / no second warp: every variant x align requested or not
+    for variant in ALIGN_VARIANTS:
+        for req in (True, False):
+            yield {"stream": "small-scope", "kind": "align", "variant": variant, "requested": req}
+
     # ---------------- confocal: small scope
     conf = []
     levels = {"u8": [3, 60, 400], "u16": [3, 20000, 90000], "f32": [3, 2**22, 2**25]}
@@ -1916,6 +2535,46 @@ def cases(tier, rng):
             rr.append([t, t + sub.randint(0, 10**6)])
             t += sub.randint(0, 10**7)
         yield {"stream": "random", "kind": "legacy", "ranges": rr, "subseed": i}
+    r = rng.fork("c18-glue")
+    for i in range(60 if quick else 2000):
+        sub = r.fork(i)
+        dtype = sub.choice(["none", "u8", "u16", "f32"])
+        pool = [v for v in BOUNDARY_VALUES[dtype if dtype != "none" else "u16"] if f64_exact(v)]
+        nf, k = sub.randint(1, 4), sub.randint(1, 3)
+        frames = [[sub.choice(pool) if sub.chance(0.15) else str(sub.randint(0, 200)) for _ in range(k)] for _ in range(nf)]
+        nd = ne = nf
+        t0 = sub.choice(TS_BOUNDARY[:-3] + [sub.randint(0, 2**62)])
+        per = sub.choice([1, 10, 1000, 10**9, sub.randint(1, 10**12)])
+        dead = [[t0 + j * per, t0 + (j + 1) * per] for j in range(nd)]
+        exp = [[t0 + j * per, t0 + j * per + sub.choice([0, 1, per, sub.randint(0, per), int(sub.loguniform(1, EXPOSURE_EXACT))])] for j in range(ne)]
+        yield dict(glue_case(frames, dtype, sub.chance(0.5), dead, exp), stream="random", subseed=i)
+    r = rng.fork("c18-software")
+    for i in range(30 if quick else 1000):
+        sub = r.fork(i)
+        parts = [sub.choice(["Pylake", "pylake", "PYLAKE", "Pylak", "ylake", "Bluelake", "v1.2", ", ", " ", "P", "y", "l", "a", "k", "e", "E", "x"]) for _ in range(sub.randint(0, 6))]
+        sw = "".join(parts).strip()
+        yield {"stream": "random", "kind": "software", "sw": sw, "key": sub.chance(0.5), "subseed": i}
+    r = rng.fork("c18-exposure")
+    for i in range(40 if quick else 1500):
+        sub = r.fork(i)
+        n_ = sub.randint(1, 4)
+        es, ms = [], []
+        for _ in range(n_):
+            mode = sub.randint(0, 9)
+            if mode <= 4:
+                e = int(sub.loguniform(1, EXPOSURE_EXACT))
+            elif mode == 5:
+                e = EXPOSURE_EXACT - sub.randint(0, 10**6)
+            elif mode == 6:
+                e = sub.randint(0, 10**4)
+            elif mode == 7:
+                e = -int(sub.loguniform(1, EXPOSURE_EXACT))
+            else:
+                e = sub.randint(EXPOSURE_EXACT, 2**53)  # beyond the theorem's bound: agreement only
+            es.append(e)
+            k = int(sub.loguniform(1, 10**12))
+            ms.append(sub.choice([(k + 0.5) / 1e6, (k + 0.5) * 1e-6, k / 1e6, k * 1e-6, sub.loguniform(1e-7, 1e6), k / 1e6 + sub.uniform(-1e-9, 1e-9)]))
+        yield dict(exposure_case(es, ms=ms, start=bt.T0 + sub.randint(0, 10**12)), stream="random", subseed=i)
 
 
 def reference_ok(spec, prog):
@@ -1928,7 +2587,10 @@ def reference_ok(spec, prog):
 
 def extra_coverage(results):
     kinds, outcomes, dtypes, ops_n, colours, exposure_modes, sizes = {}, {}, {}, {}, {}, {}, {}
-    derived = {}
+    derived, expo = {}, {}
+
+    def bump(d, key, n=1):
+        d[key] = d.get(key, 0) + n
     for r in results:
         c = r["case"]
         k = c["kind"]
@@ -1948,6 +2610,24 @@ def extra_coverage(results):
             sizes[n] = sizes.get(n, 0) + 1
             for o in c["prog"]:
                 ops_n[o[0]] = ops_n.get(o[0], 0) + 1
+        if k == "exposure":
+            bump(expo, f"pages_per_file:{len(c['e'])}")
+            for e in c["e"]:
+                cls = ("zero" if e == 0 else "negative" if e < 0 else "1..1e4" if e <= 10**4 else "..1e9" if e <= 10**9 else "..1e15-1e6" if e < EXPOSURE_EXACT - 10**6
+                       else "within 1e6 of the bound 1e15" if e <= EXPOSURE_EXACT else "beyond the bound, < 2^53" if e < 2**53 else ">= 2^53 (int64 -> float64 rounds)")
+                bump(expo, "written:" + cls)
+            got = c.get("_obs", {}).get("reread")
+            if got:
+                bump(expo, "read_back_differs_beyond_bound", sum(1 for e, g in zip(c["e"], got) if e != g))
+            for t in c["ms"]:
+                y = 1e6 * f64_of(t)
+                bump(expo, "read:" + ("product is an exact tie k+1/2 (half-even decides)" if y % 1 == 0.5 else "product is integral" if y % 1 == 0 else "product is fractional"))
+        if k == "kymo" and "dead_lines" in c.get("_obs", {}):
+            for key in ("dead_lines", "exp_lines"):
+                ll = c["_obs"].get(key) or []
+                ordered = all(a <= b for a, b in ll) and all(x[0] <= y[0] and x[1] <= y[1] for x, y in zip(ll, ll[1:]))
+                bump(expo, f"kymo_{key}:" + ("in time order, start <= stop (hypothesis of kymo_frame_range_ordered met)" if ordered else "NOT ordered"))
+                bump(expo, f"kymo_{key}:n_lines={len(ll)}")
         if k in ("kymo", "scan"):
             for o in c["derive"]:
                 derived[o[0]] = derived.get(o[0], 0) + 1
@@ -1963,7 +2643,7 @@ def extra_coverage(results):
         },
         "case_kinds": kinds, "outcomes": outcomes, "dtype_clip": dtypes, "stack_program_ops": ops_n, "stack_colours": colours,
         "stack_exposure_modes": exposure_modes, "stack_pages": {str(k): v for k, v in sorted(sizes.items())},
-        "confocal_derivations": derived,
+        "confocal_derivations": derived, "exposure_key_branches": expo,
         "notes": "stack: 1-10 pages in 1-3 files, 1x1 to 5x6 pixels; confocal: P<=6, <=8 lines / 2-4 x 2-4 pixels x 1-5 frames; "
                  "mixin: 1-12 values per image in grey/RGB layouts of 1-4 frames",
     }
